@@ -67,7 +67,9 @@ if not _HAS_TARGET:
 
 MODULES = ['TamocV.Props.C15', 'TamocV.Model.Convert', 'TamocV.Gen.UnitsData']
 RULE = ('mixtures of 1-10 database compounds with positive mole/mass vectors spanning 1e-12..1e6 (log-uniform, plus equal and '
-        'one-dominant compositions); particle diameters 1e-5..1e-1 m (log-uniform + both ends) for gas mixtures (fp_type 0) and '
+        'one-dominant compositions), every 4th scaled down to 1e-20..1e-12 mol; in every run 36 gas particles at the light / small / '
+        'near-surface corner (hydrogen, hydrogen-rich mixtures, methane; de 1e-5 exactly or 1e-5..3e-5 m; P 1e5..1e6 Pa) with floors: '
+        '>= 20 such round trips and smallest total particle mass <= 1e-16 kg; particle diameters 1e-5..1e-1 m (log-uniform + both ends) for gas mixtures (fp_type 0) and '
         'liquid mixtures (fp_type 1) at T 275-320 K, P 1e5-4e7 Pa, and for inert particles (compressible or not); EVERY unit string '
         'of the ambient table x {float, int, list, 1-D row with one unit, row with a unit per element, column, 2-D} + every standard '
         'unit + xarray datasets; EVERY unit block (pattern, alternative spelling, pattern embedded in a longer label) of the '
@@ -190,6 +192,11 @@ def run(ctx, lean_ok):
         fm = dbm.FluidMixture(comp)
         M = [float(x) for x in fm.M]
         n = rand_positive(r, nc)
+        if k % 4 == 3:
+            # "any positive mole vector": the conversions are scale-free — vectors scaled down to 1e-20..1e-12 mol
+            sc = 10 ** r.uniform(-20, -12) / max(n)
+            n = [x * sc for x in n]
+            ctx.count('mixture mole vector scaled to 1e-20..1e-12 mol')
         ctx.count('mixture nc=%s' % ('1' if nc == 1 else ('2-4' if nc < 5 else '5+')))
         ctx.nontrivial.add(('mix',) + key12(M, n))
         nv = np.array(n)
@@ -210,7 +217,7 @@ def run(ctx, lean_ok):
             track(what.split(' ')[0], e)
             if not close([float(x) for x in got], [float(x) for x in want], TOL['gen_vs_source']):
                 ctx.violation('roundtrip:' + what.split('(')[0] + ':' + what.split(' ')[0], what, dict(case, got=list(map(float, got)), want=list(map(float, want))))
-        if len(mf) != nc or abs(float(np.sum(mf)) - 1.0) > 1e-12 or abs(float(np.sum(yk)) - 1.0) > 1e-12:
+        if len(mf) != nc or not abs(float(np.sum(mf)) - 1.0) <= 1e-12 or not abs(float(np.sum(yk)) - 1.0) <= 1e-12:
             ctx.violation('fractions-not-normalised', 'mass_frac / mol_frac do not sum to one', case)
         if k < 2:
             ctx.sample({'composition': comp, 'n': n, 'masses': [float(x) for x in m], 'moles(masses(n))': [float(x) for x in n2]})
@@ -248,11 +255,21 @@ def run(ctx, lean_ok):
                             fm.delta_groups, fm.calc_delta, fm.C_pen, fm.C_pen_T)
         return float(rho[fp_type, 0])
 
+    NLIGHT = 36          # targeted class in EVERY run: light gas / smallest diameters / near-surface pressure
+    light_done = {'n': 0}
+    min_mass = {'m': float('inf'), 'case': None}
+
     def _part_case(k):
         nonlocal skipped
-        two_phase = (k % 10 == 9)
-        fp_type = 2 if two_phase else k % 2
-        if two_phase:
+        light = k < NLIGHT
+        two_phase = (k % 10 == 9) and not light
+        fp_type = 0 if light else (2 if two_phase else k % 2)
+        if light:
+            # hydrogen alone, hydrogen-rich mixtures (mean molar mass < ~10 g/mol), methane: the lightest particles of the range
+            comp = [['hydrogen'], ['hydrogen', 'methane'], ['hydrogen', 'methane', 'nitrogen'], ['hydrogen'], ['methane'],
+                    ['hydrogen', 'carbon_dioxide']][k % 6]
+            nc = len(comp)
+        elif two_phase:
             comp = r.choice([['methane', 'n-decane'], ['methane', 'ethane', 'n-hexane'], ['methane', 'ethane', 'n-hexane', 'n-decane'],
                              ['carbon_dioxide', 'methane', 'n-heptane']])
             nc = len(comp)
@@ -267,11 +284,19 @@ def run(ctx, lean_ok):
         fm = dbm.FluidMixture(comp)
         M = [float(x) for x in fp.M]
         yk = np.array(rand_positive(r, nc)) if not two_phase else np.array([r.uniform(0.05, 1.) for _ in comp])
+        if light and nc > 1:
+            yk = np.array([r.uniform(0.6, 0.98)] + [r.uniform(0.01, 1.) for _ in range(nc - 1)])
+            yk[1:] *= (1. - yk[0]) / np.sum(yk[1:])          # hydrogen-dominated
         if two_phase or r.random() < 0.8:
             yk = yk / np.sum(yk)
-        Tt = r.uniform(275., 320.)
-        Pp = 10 ** r.uniform(5, math.log10(4e7) if not two_phase else 7.3)
-        de = r.choice([1e-5, 1e-1, 10 ** r.uniform(-5, -1), 10 ** r.uniform(-5, -1), 10 ** r.uniform(-4, -2)])
+        Tt = r.uniform(273., 320.) if light else r.uniform(275., 320.)
+        Pp = 10 ** r.uniform(5, 6) if light else 10 ** r.uniform(5, math.log10(4e7) if not two_phase else 7.3)
+        if light and k % 3 == 0:
+            Pp = 101325.
+        if light:
+            de = 1e-5 if k % 2 == 0 else 10 ** r.uniform(-5, math.log10(3e-5))
+        else:
+            de = r.choice([1e-5, 1e-1, 10 ** r.uniform(-5, -1), 10 ** r.uniform(-5, -1), 10 ** r.uniform(-4, -2)])
         case = {'composition': comp, 'fp_type': fp_type, 'T': Tt, 'P': Pp, 'de': de, 'yk': [float(x) for x in yk]}
         ctx.evaluations += 1
         # does the phase exist at this state?  decided WITHOUT the particle object
@@ -291,6 +316,12 @@ def run(ctx, lean_ok):
             de2 = float(fp.diameter(m, Tt, Pp))
         finally:
             dbm.FluidParticle.density = _orig_density
+        mt = float(np.sum(m))
+        if mt < min_mass['m']:
+            min_mass['m'], min_mass['case'] = mt, dict(case, total_mass=mt)
+        if light:
+            light_done['n'] += 1
+            ctx.count('particle light / small / near-surface corner')
         ctx.count('particle fp_type=%d' % fp_type)
         ctx.count('de decade 1e%d' % int(math.floor(math.log10(de) + 1e-9)))
         ctx.nontrivial.add(('fp',) + key12(M, yk, Tt, Pp, de, fp_type))
@@ -339,6 +370,13 @@ def run(ctx, lean_ok):
             ctx.violation('raises:particle:%s:%s' % (os.path.basename(tb.filename), tb.name), 'a FluidParticle conversion raised %s: %s' % (type(e).__name__, e),
                           {'case_index': k, 'site': '%s:%d' % (tb.filename, tb.lineno)})
             dbm.FluidParticle.density = _orig_density
+
+    if db_ok:
+        ctx.oblige('floor: >= 20 diameter round trips at the light-gas / 1e-5..3e-5 m / 1e5..1e6 Pa corner (%d done)' % light_done['n'],
+                   light_done['n'] >= 20, 'only %d' % light_done['n'])
+        ctx.oblige('floor: the round-trip cases reach a total particle mass <= 1e-16 kg (smallest: %.3g kg) — the conversions are scale-free, '
+                   'absolute thresholds must be exercised' % min_mass['m'], min_mass['m'] <= 1e-16, repr(min_mass['case']))
+        ctx.notes.append('smallest total particle mass among the diameter round trips: %.3g kg (%r)' % (min_mass['m'], min_mass['case']))
 
     # ================= (3) InsolubleParticle ==================================================
     nins = ctx.n(200, 10000)
